@@ -5,6 +5,8 @@
 //! child process (`c11worker`: address-space limit, counting allocator; abort / stack overflow /
 //! panic / timeout are observables).  Output formats: see `lean/TrustVerif/Drv/C11.lean`.
 
+#[path = "c11/fbref.rs"]
+mod fbref;
 #[path = "c11/gen_st.rs"]
 mod gen_st;
 #[path = "c11/modgen.rs"]
@@ -69,6 +71,8 @@ struct JobResult {
     apply: String,
     mem: String,
     rt: String,
+    /// definitions of the composite values of the runtime view (`K` lines of the worker)
+    cv: Vec<String>,
     died: bool,
 }
 
@@ -105,6 +109,7 @@ impl Pool {
                         "A" => res.apply = rest,
                         "X" => res.mem = rest,
                         "R" => res.rt = rest,
+                        "K" => res.cv.push(rest),
                         "E" => break,
                         _ => {}
                     }
@@ -169,6 +174,9 @@ struct CaseSpec {
     emit_failed: Option<String>,
     /// for containers encoded from a well-formed hand-built module: `decode(encode(m)) == m` (real code)
     built: Option<String>,
+    /// witness of an open finding about resources: only measured on the real code (the answer goes into
+    /// the case header for checks/c11.py), no operation is compared with the model
+    measure_only: bool,
 }
 
 fn fnv64(bytes: &[u8]) -> u64 {
@@ -641,6 +649,35 @@ struct Bases {
     rollback: Vec<(usize, usize, usize, bool)>,
     /// (type, place, with initial value) of the deterministic declaration programs
     decls: Vec<(usize, usize, bool)>,
+    /// array / struct / leaf values of the runtime built from fbref::COMPOSITE_RUNTIME
+    fb_nodes: Vec<fbref::Node>,
+    /// the deterministic sweep of task FB references with paths into them
+    fb_sweep: Vec<fbref::Probe>,
+    /// the container the compiler emits for fbref::COMPOSITE_RUNTIME
+    fb_emitted: Option<BytecodeModule>,
+}
+
+const KNOWN_AMPLIFICATION: &str = "C11-metadata-fbref-amplification";
+
+/// Witness of the open finding C11-metadata-fbref-amplification: ONE reference whose `Index` segment
+/// has `n_indices` entries, named `n_refs` times in a task's `fb_ref_idx`.  The container is
+/// `8 * n_indices + 4 * n_refs` bytes (+ the base module) long; `metadata()` clones the index vector
+/// once per `fb_ref_idx` entry: `8 * n_indices * n_refs` bytes.
+fn amplification_witness(n_indices: usize, n_refs: usize) -> Vec<u8> {
+    let mut m = wf_variant(0);
+    let e = RefEntry {
+        location: RefLocation::Global,
+        owner_id: 0,
+        offset: 0,
+        segments: vec![RefSegment::Index(vec![0; n_indices])],
+    };
+    let Some(SectionData::RefTable(t)) = m.section_mut(SectionId::RefTable) else { unreachable!() };
+    let idx = t.entries.len() as u32;
+    t.entries.push(e);
+    if let Some(SectionData::ResourceMeta(meta)) = m.section_mut(SectionId::ResourceMeta) {
+        meta.resources[0].tasks[0].fb_ref_idx = vec![idx; n_refs];
+    }
+    m.encode().expect("encode amplification witness")
 }
 
 enum Compiled {
@@ -757,7 +794,7 @@ fn emitted_case(c: Compiled, kind: &'static str, note: String, own_runtime: bool
                 runtime_source: if own_runtime { source } else { gen_st::SIMPLE_RUNTIME.to_string() },
                 resource: "none".into(),
                 emitted: Some(answer),
-                emit_failed: None,
+                emit_failed: None, measure_only: false,
                 built: None,
             }
         }
@@ -768,7 +805,7 @@ fn emitted_case(c: Compiled, kind: &'static str, note: String, own_runtime: bool
             runtime_source: source,
             resource: "none".into(),
             emitted: None,
-            emit_failed: Some(err),
+            emit_failed: Some(err), measure_only: false,
             built: None,
         },
     }
@@ -782,7 +819,7 @@ fn gen_case(n: u64, seed: u64, bases: &Bases, out: &mut Out) -> CaseSpec {
                 0 | 28 | 29 => Some(built_answer(n)),
                 _ => None,
             };
-            return CaseSpec { kind: "corpus", notes, bytes, runtime_source: simple, resource: "none".into(), emitted: None, emit_failed: None, built };
+            return CaseSpec { kind: "corpus", notes, bytes, runtime_source: simple, resource: "none".into(), emitted: None, emit_failed: None, measure_only: false, built };
         }
     }
     if n < CORPUS + SWEEP {
@@ -794,7 +831,7 @@ fn gen_case(n: u64, seed: u64, bases: &Bases, out: &mut Out) -> CaseSpec {
             runtime_source: simple,
             resource: "none".into(),
             emitted: None,
-            emit_failed: None,
+            emit_failed: None, measure_only: false,
                 built: None,
         };
     }
@@ -811,7 +848,7 @@ fn gen_case(n: u64, seed: u64, bases: &Bases, out: &mut Out) -> CaseSpec {
                 runtime_source: simple,
                 resource: "none".into(),
                 emitted: None,
-                emit_failed: None,
+                emit_failed: None, measure_only: false,
                 built: None,
             };
         }
@@ -831,7 +868,7 @@ fn gen_case(n: u64, seed: u64, bases: &Bases, out: &mut Out) -> CaseSpec {
                 runtime_source: source,
                 resource: "none".into(),
                 emitted: None,
-                emit_failed: Some("front-end-rejected".into()),
+                emit_failed: Some("front-end-rejected".into()), measure_only: false,
                 built: None,
             },
         };
@@ -852,7 +889,7 @@ fn gen_case(n: u64, seed: u64, bases: &Bases, out: &mut Out) -> CaseSpec {
                 runtime_source: source,
                 resource: "none".into(),
                 emitted: None,
-                emit_failed: Some("front-end-rejected".into()),
+                emit_failed: Some("front-end-rejected".into()), measure_only: false,
                 built: None,
             },
         };
@@ -872,11 +909,45 @@ fn gen_case(n: u64, seed: u64, bases: &Bases, out: &mut Out) -> CaseSpec {
             runtime_source: simple,
             resource: "none".into(),
             emitted: None,
-            emit_failed: None,
+            emit_failed: None, measure_only: false,
             built: None,
         };
         spec.notes.push(format!("src={}", hex(source.as_bytes())));
         return spec;
+    }
+    // the witness of the open finding C11-metadata-fbref-amplification (measured, not compared)
+    if (k as usize) == base + bases.decls.len() + 1 {
+        return CaseSpec {
+            kind: "known-witness",
+            notes: vec![KNOWN_AMPLIFICATION.to_string()],
+            bytes: amplification_witness(1024, 2048),
+            runtime_source: simple,
+            resource: "none".into(),
+            emitted: None,
+            emit_failed: None,
+            built: None,
+            measure_only: true,
+        };
+    }
+    // task FB references with paths into the array / struct variables of the runtime, deterministic
+    let fb_base = base + bases.decls.len() + 2;
+    if (k as usize) >= fb_base && (k as usize) - fb_base < bases.fb_sweep.len() {
+        let i = k as usize - fb_base;
+        let probe = &bases.fb_sweep[i];
+        let from_emitted = i % 2 == 1 && bases.fb_emitted.is_some();
+        let base_module = if from_emitted { bases.fb_emitted.as_ref().unwrap() } else { &bases.sweep_module };
+        let (m, what) = fbref::sweep_module(base_module, &bases.fb_nodes, probe, i / 2);
+        return CaseSpec {
+            kind: "fbref-sweep",
+            notes: vec![what, format!("base={}", if from_emitted { "emitted" } else { "hand-built" })],
+            bytes: m.encode().expect("encode fbref sweep module"),
+            runtime_source: fbref::COMPOSITE_RUNTIME.to_string(),
+            resource: "none".into(),
+            emitted: None,
+            emit_failed: None,
+            built: None,
+            measure_only: false,
+        };
     }
     let mut rng = Rng::for_case(seed, n);
     let resource = match rng.below(10) {
@@ -923,10 +994,29 @@ fn gen_case(n: u64, seed: u64, bases: &Bases, out: &mut Out) -> CaseSpec {
             }
             fix_crc(&mut bytes);
             let notes = vec!["random bytes behind a valid header".to_string()];
-            return CaseSpec { kind: "random-header", notes, bytes, runtime_source: simple, resource, emitted: None, emit_failed: None, built: None };
+            return CaseSpec { kind: "random-header", notes, bytes, runtime_source: simple, resource, emitted: None, emit_failed: None, measure_only: false, built: None };
         }
         let notes = vec!["random bytes".to_string()];
-        return CaseSpec { kind: "random", notes, bytes, runtime_source: simple, resource, emitted: None, emit_failed: None, built: None };
+        return CaseSpec { kind: "random", notes, bytes, runtime_source: simple, resource, emitted: None, emit_failed: None, measure_only: false, built: None };
+    }
+    if roll >= 92 {
+        // task FB references with paths, random: 1..3 references, random boundary indices in every
+        // dimension, other roots; base = hand-built module (format 1.0 / 1.1) or the emitted one
+        let from_emitted = rng.chance(1, 3) && bases.fb_emitted.is_some();
+        let base_module = if from_emitted { bases.fb_emitted.clone().unwrap() } else { rich_module(&mut rng) };
+        let (m, mut notes) = fbref::random_module(&mut rng, &base_module, &bases.fb_nodes);
+        notes.push(format!("base={}", if from_emitted { "emitted" } else { "hand-built" }));
+        return CaseSpec {
+            kind: "fbref",
+            notes,
+            bytes: m.encode().expect("encode fbref module"),
+            runtime_source: fbref::COMPOSITE_RUNTIME.to_string(),
+            resource,
+            emitted: None,
+            emit_failed: None,
+            built: None,
+            measure_only: false,
+        };
     }
     // mutated: base = hand-built rich module or a compiler-emitted one
     let from_emitted = roll < 36 && !bases.emitted.is_empty();
@@ -968,7 +1058,7 @@ fn gen_case(n: u64, seed: u64, bases: &Bases, out: &mut Out) -> CaseSpec {
         runtime_source: simple,
         resource,
         emitted: None,
-        emit_failed: None,
+        emit_failed: None, measure_only: false,
         built: None,
     }
 }
@@ -1019,6 +1109,22 @@ fn probe(path: &str, nodebug: bool) -> i32 {
 pub fn run(args: &Args) -> i32 {
     if let Some(path) = args.extra.get("src") {
         return probe(path, args.extra.contains_key("nodebug"));
+    }
+    if args.extra.contains_key("amplification") {
+        // developer tool: memory of metadata() on the witness family of C11-metadata-fbref-amplification
+        let mut pool = Pool { worker: None, limit_mb: 4096, timeout: Duration::from_secs(120), restarts: 0 };
+        for (a, b) in [(256usize, 512usize), (512, 1024), (1024, 2048), (2048, 4096), (4096, 8192)] {
+            let bytes = amplification_witness(a, b);
+            let res = pool.run(gen_st::SIMPLE_RUNTIME, "none", &bytes);
+            println!(
+                "indices={a} refs={b} len={} validate={} metadata={} mem={}",
+                bytes.len(),
+                res.validate,
+                res.metadata.split(' ').next().unwrap_or(""),
+                res.mem
+            );
+        }
+        return 0;
     }
     if args.extra.contains_key("decl-probe") {
         // developer tool: which declaration programs does the front end accept
@@ -1093,7 +1199,16 @@ pub fn run(args: &Args) -> i32 {
     out.add("rollback-programs", rollback.len() as u64);
     let decls = decl_list(args.extra_usize("decl-level", 1));
     out.add("decl-programs", decls.len() as u64);
-    let mut bases = Bases { emitted: Vec::new(), sweep_module, sites, rollback, decls };
+    let fb_nodes = fbref::nodes(fbref::COMPOSITE_RUNTIME);
+    out.add("fbref-nodes", fb_nodes.len() as u64);
+    let fb_sweep = fbref::sweep(&fb_nodes);
+    out.add("fbref-sweep-probes", fb_sweep.len() as u64);
+    let fb_emitted = match compile_source(fbref::COMPOSITE_RUNTIME, vec![], false, &mut out) {
+        Some(Compiled::Ok(m, _, _)) => Some(m),
+        _ => None,
+    };
+    out.add("fbref-emitted-base", fb_emitted.is_some() as u64);
+    let mut bases = Bases { emitted: Vec::new(), sweep_module, sites, rollback, decls, fb_nodes, fb_sweep, fb_emitted };
     let mut brng = Rng::for_case(args.seed, u64::MAX);
     for _ in 0..4 {
         if let Some(Compiled::Ok(m, source, _)) = compile(&mut brng, &mut out) {
@@ -1116,16 +1231,44 @@ pub fn run(args: &Args) -> i32 {
                     runtime_source: gen_st::SIMPLE_RUNTIME.to_string(),
                     resource: "none".into(),
                     emitted: None,
-                    emit_failed: None,
+                    emit_failed: None, measure_only: false,
                     built: None,
                 }
             }
         };
         let res = pool.run(&spec.runtime_source, &spec.resource, &spec.bytes);
+        if spec.measure_only {
+            // result = `ok` or `excess:<stages>` (what the counting allocator of the worker saw), or the
+            // first stage that did not answer `ok`
+            let stages = [("decode", &res.decode), ("validate", &res.validate), ("metadata", &res.metadata)];
+            let result = if let Some((name, _)) = stages.iter().find(|(_, a)| !a.starts_with("ok")) {
+                format!("failed:{name}")
+            } else if res.mem == "ok" {
+                "ok".to_string()
+            } else {
+                let mut names: Vec<&str> = Vec::new();
+                for part in res.mem.split(|c| c == ' ' || c == ',') {
+                    if let Some((stage, _)) = part.split_once(":peak=") {
+                        names.push(stage);
+                    }
+                }
+                if names.is_empty() { format!("other:{}", res.mem.replace(' ', "_")) } else { format!("excess:{}", names.join("+")) }
+            };
+            out.line(format!("case {n}"));
+            out.line(format!("# kind={} len={} {} result={result} ; mem={}", spec.kind, spec.bytes.len(), spec.notes.join(" ; "), res.mem.replace(' ', "_")));
+            out.count(&format!("kind-{}", spec.kind));
+            out.line("tag nontrivial");
+            out.count("nontrivial");
+            out.line("end");
+            continue;
+        }
         out.line(format!("case {n}"));
         out.line(format!("# kind={} len={} {}", spec.kind, spec.bytes.len(), spec.notes.join(" ; ")));
         out.count(&format!("kind-{}", spec.kind));
         let rt = if res.rt.is_empty() { "- - - 0,0,0 -".to_string() } else { res.rt.clone() };
+        for def in &res.cv {
+            out.line(format!("cv {def}"));
+        }
         out.line(format!("rt {rt}"));
         out.line(format!("bytes {}", hex(&spec.bytes)));
         out.line("decode");
